@@ -434,7 +434,8 @@ pub struct SysGen {
 
 impl SysGen {
     pub fn gen(&self, rng: &mut Rng) -> System {
-        let n = rng.usize(1, self.max_tasks);
+        // (one system in 40 is a large one)
+        let n = if self.max_tasks >= 5 && rng.chance(1, 40) { rng.usize(17, 24) } else { rng.usize(1, self.max_tasks) };
         let ag = ArrGen {
             scale: self.scale,
             allow_never: false,
@@ -445,7 +446,7 @@ impl SysGen {
         };
         // utilisation target in percent
         let target = *rng.pick(&[30u64, 50, 70, 85, 95, 100, 110]);
-        let mut tasks = vec![];
+        let mut tasks: Vec<Task> = vec![];
         let mut prios: Vec<u32> = (0..n as u32).collect();
         rng.shuffle(&mut prios);
         if n >= 2 && rng.chance(1, 6) {
@@ -453,7 +454,15 @@ impl SysGen {
             prios[1] = prios[0];
         }
         let common_deadline = rng.log_range(1, self.scale * 2);
+        let mut twin_of_previous = false;
         for k in 0..n {
+            if twin_of_previous {
+                twin_of_previous = false;
+                let mut t: Task = tasks[k - 1].clone();
+                t.prio = prios[k];
+                tasks.push(t);
+                continue;
+            }
             let arr = loop {
                 let a = if self.allow_composite && rng.chance(1, 4) { ag.any(rng, 2) } else { ag.leaf(rng) };
                 if self.exact_only && !a.is_exact() {
@@ -509,6 +518,10 @@ impl SysGen {
                 None
             };
             tasks.push(Task { arr, wcet, deadline, prio: prios[k], segs, np_max, cost_curve });
+            // occasionally the next task is an exact copy of this one (apart from its priority)
+            if k + 1 < n && rng.chance(1, 12) {
+                twin_of_previous = true;
+            }
         }
         System { tasks }
     }
